@@ -14,10 +14,10 @@ pub fn fail_units(n: usize) -> Vec<Unit> {
         unit("FOO", U::Fail(RefErr::std(-113))),                 // undefined header
         unit("EVT 1,2", U::Fail(RefErr::std(-108))),             // parameter not allowed
         unit("U8", U::Fail(RefErr::std(-109))),                  // missing parameter
-        unit("U8 \"x\"", U::Fail(RefErr::std(-104))),            // data type error
+        unit("U8 \"x\"", U::Fail(RefErr::std(-104).any_of_class())),            // data type error
         unit("U8 256", U::Fail(RefErr::std(-222))),              // data out of range
         unit("RAISE -400", U::Fail(RefErr::std(-400))),          // handler-raised query error
-        unit("EVT \"abc", U::Fail(RefErr::std(-151))),           // lexical: unterminated string
+        unit("EVT \"abc", U::Fail(RefErr::std(-151).any_of_class())),           // lexical: unterminated string
         unit("RAISEX", U::Fail(RefErr::std(-300).with_ext(b"ext"))), // device-specific with extended text
         unit("RAISE 5", U::Fail(RefErr::std(5))),                // custom positive
         unit("RAISE -800", U::Fail(RefErr::std(-800))),          // handler-raised operation complete
@@ -27,7 +27,7 @@ pub fn fail_units(n: usize) -> Vec<Unit> {
         unit("RAISE -950", U::Fail(RefErr::std(-950))),          // custom unclassified negative
         unit("RAISE -100", U::Fail(RefErr::std(-100))),
         unit("RAISE -200", U::Fail(RefErr::std(-200))),
-        unit("U8 1V", U::Fail(RefErr::std(-138))),               // suffix not allowed
+        unit("U8 1V", U::Fail(RefErr::std(-138).any_of_class())),               // suffix not allowed
     ];
     all.into_iter().take(n).collect()
 }
